@@ -11,6 +11,9 @@ import Anko.Proofs.Conv
 import Anko.Model.Eval
 import Anko.Gen.ConvFlow
 import Anko.Props.ConvFlowTable
+import Anko.Props.Tie.ConvFlow
+import Anko.Props.Tie.CallFlow
+import Anko.Props.Tie.BindFlow
 
 namespace Anko.C11
 open Anko.Conv
@@ -106,6 +109,17 @@ asks for a func type, the function literal inside it included) and reflectValueS
 one written down in Props/ConvFlowTable next to Model/Conv: the order of the stages (identity, Go's own conversion with the array-length guard,
 element-wise slice / map conversion, function adapter, pointer, interface, string to byte / rune). Any edit of these functions - also a harmless one - breaks this obligation by name; the check then
 searches model and implementation for a failing input (DESIGN.md 13.3). -/
-theorem conversions_are_the_modelled_ones : Gen.ConvFlow.leaves = Tables.convFlow := by decide +kernel
+theorem conversions_are_the_modelled_ones : Gen.ConvFlow.leaves = Tables.convFlow := Tie.convFlow
+
+/-! ### Shared source ties
+
+The code this property is anchored in is also written down, leaf statement by leaf statement, by the tables below (each decided once in
+Props/Tie, `decide +kernel`, against the table regenerated from /repo on this run). A change of that code breaks the tie by name here too, and the check of
+this property then searches for a failing input - so a change that breaks this property through code whose primary table belongs to another
+property is not overlooked. -/
+/-- the call machinery (vmExprFunction.go) -/
+theorem source_tie_CallFlow : Gen.CallFlow.leaves = Tables.callFlow := Tie.callFlow
+/-- function literals, module, var and assignment statements -/
+theorem source_tie_BindFlow : Gen.BindFlow.leaves = Tables.bindFlow := Tie.bindFlow
 
 end Anko.C11
